@@ -352,6 +352,32 @@ pub fn run(tier: Tier) -> i32 {
         },
     );
     acc.merge(Acc::merge_all(accs.into_iter().map(|(a, _)| a).collect()));
+    // (B') two names in one object: every ordered pair over characters around the
+    // UTF-8 / UTF-16 / plane boundaries (member order is by code point)
+    {
+        let ring_ed = Ed25519KeyPair::from_pkcs8(keys::ED_PK8[0]).unwrap();
+        let cs = ['a', '\u{7f}', '\u{80}', 'é', '\u{7ff}', '\u{800}', '\u{d7ff}', '\u{e000}', '\u{fb01}', '\u{ffff}', '\u{10000}', '\u{1f600}', '\u{10ffff}'];
+        for x in cs {
+            for y in cs {
+                if x == y {
+                    continue;
+                }
+                let (px, py) = (format!("d/{x}1"), format!("d/{y}2"));
+                let mut m = link_with("name", "pair");
+                if let MetadataWrapper::Link(ref mut l) = m {
+                    l.materials.insert(world::vpath(&px), world::desc(7));
+                    l.materials.insert(world::vpath(&py), world::desc(8));
+                    let mut env = l.env.clone().unwrap_or_default();
+                    env.insert(format!("{x}K"), "1".into());
+                    env.insert(format!("{y}K"), "2".into());
+                    l.env = Some(env);
+                    l.byproducts = l.byproducts.clone().set_other_field(format!("{x}o"), "1".into()).set_other_field(format!("{y}o"), "2".into());
+                }
+                acc.nontrivial += 1;
+                check_signed_bytes(&mut acc, &m, "two-names-in-one-object", &format!("{x}{y}"), "link", &ring_ed);
+            }
+        }
+    }
     // (C) other C0 controls and a few long captured-output shapes in the output fields
     let extra = ["\t", "\r\n", "\u{8}", "\u{c}", "\u{0}", "\u{1f}", "\u{7f}", "a\tb\r\nc\\nd\"e", "line1\nline2\n", "C:\\new\\table", "\\\\n", "\\\n"];
     let ring_ed = Ed25519KeyPair::from_pkcs8(keys::ED_PK8[0]).unwrap();
